@@ -124,6 +124,15 @@ type locksetEngine struct {
 	requires map[*ssa.Function][]lockReq
 	accesses int
 	perField map[string]int
+	// hook, when set, is shown every instruction with the locks that are certainly held before it
+	hook func(i ssa.Instruction, held lockset)
+}
+
+// heldLocks runs the must-lockset dataflow over fn and shows visit every instruction together with the locks that are
+// certainly held when it executes (keys: canonical base object, lock field name; 1 = read, 2 = write).
+func heldLocks(p *Program, fn *ssa.Function, visit func(i ssa.Instruction, held lockset)) {
+	e := &locksetEngine{p: p, guarded: map[string]string{}, requires: map[*ssa.Function][]lockReq{}, perField: map[string]int{}, hook: visit}
+	e.analyse(fn, false)
 }
 
 func (e *locksetEngine) analyse(fn *ssa.Function, count bool) []lockMiss {
@@ -209,6 +218,9 @@ func (e *locksetEngine) analyse(fn *ssa.Function, count bool) []lockMiss {
 			continue
 		}
 		transfer(b, st, func(i ssa.Instruction, s lockset) {
+			if e.hook != nil {
+				e.hook(i, s)
+			}
 			switch x := i.(type) {
 			case *ssa.UnOp:
 				if x.Op != token.MUL {
@@ -461,6 +473,7 @@ func runLockset(c *Ctx, rule string, table []guardedField, floor int) {
 		c.Notes = append(c.Notes, rule+": inferred entry requirements, all checked at call sites: "+strings.Join(reqs, "; "))
 	}
 	c.Floor(rule, floor)
+	checkAtomicity(c, rule, e)
 }
 
 func (p *Program) fieldExists(path string) bool {
@@ -484,4 +497,336 @@ func (p *Program) fieldExists(path string) bool {
 		}
 	}
 	return false
+}
+
+// ---------------------------------------------------------------- check-then-act across critical sections
+
+// checkAtomicity: a value read from a guarded field in one critical section must not decide what a later, separate
+// write-mode critical section on the same lock does (the lock was released in between, so the value may be stale:
+// "is it still the head of the list? then pop the head" done in two steps pops the wrong element).  Intraprocedural:
+//   - acq(i): the acquisitions (Lock/RLock call instructions) of lock k that may be the one held at instruction i
+//     (forward may-dataflow; empty = not held)
+//   - taint(v): acquisitions under which a guarded field was read that v is computed from (pure operations only)
+//   - sink: a branch on, or a guarded-field write of, a value tainted by acquisition A, executed under a write-mode
+//     acquisition B of the same lock with B ∉ A's set; or a branch outside any section of that lock that guards a
+//     later write-mode acquisition of it.
+func checkAtomicity(c *Ctx, rule string, e *locksetEngine) {
+	p := c.P
+	n := 0
+	for _, fn := range p.Fns {
+		if fn.Blocks == nil {
+			continue
+		}
+		// only functions with at least two acquisitions of one lock
+		acqCount := map[lockKey]int{}
+		for _, b := range fn.Blocks {
+			for _, i := range b.Instrs {
+				if _, isDefer := i.(*ssa.Defer); isDefer {
+					continue
+				}
+				if k, op, ok := lockOp(i); ok && (op == "Lock" || op == "RLock") {
+					acqCount[k]++
+				}
+			}
+		}
+		multi := false
+		for _, cnt := range acqCount {
+			if cnt >= 2 {
+				multi = true
+			}
+		}
+		if !multi {
+			continue
+		}
+		n++
+		for _, f := range atomicityFindings(p, fn, e.guarded) {
+			c.Fail(rule, fn, "stale-decision:"+f.field, f.at, f.msg, nil)
+		}
+	}
+	c.Notes = append(c.Notes, fmt.Sprintf("%s: check-then-act across critical sections examined in %d function(s) that take one lock more than once", rule, n))
+}
+
+type atomFinding struct {
+	field string
+	at    ssa.Instruction
+	msg   string
+}
+
+type acqSet map[ssa.Instruction]bool
+
+type acqState map[lockKey]acqSet
+
+// acquisitionsAt: for every instruction, per lock, the acquisitions (Lock/RLock call instructions) that may be the one
+// currently held there (forward may-dataflow; absent = not held on any path).
+func acquisitionsAt(fn *ssa.Function) map[ssa.Instruction]acqState {
+	type state = acqState
+	clone := func(s state) state {
+		r := state{}
+		for k, v := range s {
+			nv := acqSet{}
+			for a := range v {
+				nv[a] = true
+			}
+			r[k] = nv
+		}
+		return r
+	}
+	join := func(dst, src state) bool {
+		ch := false
+		for k, v := range src {
+			if dst[k] == nil {
+				dst[k] = acqSet{}
+			}
+			for a := range v {
+				if !dst[k][a] {
+					dst[k][a] = true
+					ch = true
+				}
+			}
+		}
+		return ch
+	}
+	step := func(i ssa.Instruction, s state) {
+		if _, isDefer := i.(*ssa.Defer); isDefer {
+			return
+		}
+		if _, isGo := i.(*ssa.Go); isGo {
+			return
+		}
+		if k, op, ok := lockOp(i); ok {
+			switch op {
+			case "Lock", "RLock":
+				s[k] = acqSet{i: true}
+			default:
+				delete(s, k)
+			}
+		}
+	}
+	in := map[*ssa.BasicBlock]state{fn.Blocks[0]: {}}
+	work := []*ssa.BasicBlock{fn.Blocks[0]}
+	for len(work) > 0 {
+		b := work[0]
+		work = work[1:]
+		s := clone(in[b])
+		for _, i := range b.Instrs {
+			step(i, s)
+		}
+		for _, succ := range b.Succs {
+			if in[succ] == nil {
+				in[succ] = clone(s)
+				work = append(work, succ)
+			} else if join(in[succ], s) {
+				work = append(work, succ)
+			}
+		}
+	}
+	at := map[ssa.Instruction]acqState{}
+	for _, b := range fn.Blocks {
+		if in[b] == nil {
+			continue
+		}
+		s := clone(in[b])
+		for _, i := range b.Instrs {
+			at[i] = clone(s)
+			step(i, s)
+		}
+	}
+	return at
+}
+
+func atomicityFindings(p *Program, fn *ssa.Function, guarded map[string]string) []atomFinding {
+	at := acquisitionsAt(fn)
+	isWriteAcq := func(a ssa.Instruction) bool {
+		_, op, _ := lockOp(a)
+		return op == "Lock"
+	}
+	// taint
+	type tkey struct {
+		k lockKey
+	}
+	taint := map[ssa.Value]map[lockKey]acqSet{}
+	field := map[ssa.Value]string{}
+	add := func(v ssa.Value, k lockKey, as acqSet, f string) bool {
+		if taint[v] == nil {
+			taint[v] = map[lockKey]acqSet{}
+		}
+		if taint[v][k] == nil {
+			taint[v][k] = acqSet{}
+		}
+		ch := false
+		for a := range as {
+			if !taint[v][k][a] {
+				taint[v][k][a] = true
+				ch = true
+			}
+		}
+		if ch && field[v] == "" {
+			field[v] = f
+		}
+		return ch
+	}
+	for changed := true; changed; {
+		changed = false
+		for _, b := range fn.Blocks {
+			for _, i := range b.Instrs {
+				v, isVal := i.(ssa.Value)
+				if !isVal {
+					continue
+				}
+				if u, ok := i.(*ssa.UnOp); ok && u.Op == token.MUL {
+					if owner, name, base, ok := ownerField(u.X); ok {
+						if lk, ok := guarded[owner+"."+name]; ok {
+							k := lockKey{base, lk}
+							if as := at[i][k]; len(as) > 0 {
+								if add(v, k, as, owner+"."+name) {
+									changed = true
+								}
+							}
+							continue
+						}
+					}
+				}
+				var ops []ssa.Value
+				switch x := i.(type) {
+				case *ssa.BinOp:
+					ops = []ssa.Value{x.X, x.Y}
+				case *ssa.UnOp:
+					if x.Op != token.MUL && x.Op != token.ARROW {
+						ops = []ssa.Value{x.X}
+					}
+				case *ssa.Convert:
+					ops = []ssa.Value{x.X}
+				case *ssa.ChangeType:
+					ops = []ssa.Value{x.X}
+				case *ssa.MakeInterface:
+					ops = []ssa.Value{x.X}
+				case *ssa.Phi:
+					ops = x.Edges
+				case *ssa.Lookup:
+					ops = []ssa.Value{x.X, x.Index}
+				case *ssa.Extract:
+					ops = []ssa.Value{x.Tuple}
+				case *ssa.Slice:
+					ops = []ssa.Value{x.X}
+				case *ssa.Index:
+					ops = []ssa.Value{x.X}
+				case *ssa.IndexAddr:
+					ops = []ssa.Value{x.X}
+				case *ssa.Call:
+					if bi, ok := x.Call.Value.(*ssa.Builtin); ok && (bi.Name() == "len" || bi.Name() == "cap") {
+						ops = x.Call.Args
+					}
+				}
+				// something read through a tainted address (element of a tainted slice, field of a tainted pointer)
+				if u, ok := i.(*ssa.UnOp); ok && u.Op == token.MUL {
+					switch a := u.X.(type) {
+					case *ssa.IndexAddr:
+						ops = []ssa.Value{a}
+					case *ssa.FieldAddr:
+						ops = []ssa.Value{a}
+					}
+				}
+				switch x := i.(type) {
+				case *ssa.FieldAddr:
+					ops = []ssa.Value{x.X}
+				case *ssa.Field:
+					ops = []ssa.Value{x.X}
+				}
+				for _, o := range ops {
+					for k, as := range taint[o] {
+						if add(v, k, as, field[o]) {
+							changed = true
+						}
+					}
+				}
+			}
+		}
+	}
+	var out []atomFinding
+	seen := map[ssa.Instruction]bool{}
+	report := func(i ssa.Instruction, v ssa.Value, k lockKey, how string) {
+		if seen[i] {
+			return
+		}
+		seen[i] = true
+		out = append(out, atomFinding{field[v], i, "a value read from " + field[v] + " in one critical section of " + k.lock + " " + how + " in a later, separate write section of the same lock: the lock was released in between, so the decision can be stale (two goroutines both see the condition true and both act — e.g. the head seed is popped twice and a healthy seed is lost)"})
+	}
+	// rereads: the section opened by acquisition j reads the field again (the double-checked idiom: the stale value only
+	// decides whether to take the lock; the decision proper is made again inside)
+	rereads := func(j ssa.Instruction, k lockKey, f string) bool {
+		for _, b := range fn.Blocks {
+			for _, i := range b.Instrs {
+				u, ok := i.(*ssa.UnOp)
+				if !ok || u.Op != token.MUL || !at[i][k][j] {
+					continue
+				}
+				if owner, name, base, ok := ownerField(u.X); ok && owner+"."+name == f && base == k.base {
+					return true
+				}
+			}
+		}
+		return false
+	}
+	for _, b := range fn.Blocks {
+		for _, i := range b.Instrs {
+			var used []ssa.Value
+			kind := ""
+			switch x := i.(type) {
+			case *ssa.If:
+				used, kind = []ssa.Value{x.Cond}, "decides a branch"
+			case *ssa.Store:
+				if owner, name, _, ok := ownerField(x.Addr); ok {
+					if _, g := guarded[owner+"."+name]; g {
+						used, kind = []ssa.Value{x.Val}, "is written back to "+owner+"."+name
+					}
+				}
+			}
+			for _, v := range used {
+				for k, as := range taint[v] {
+					cur := at[i][k]
+					if len(cur) > 0 {
+						// evaluated under acquisition(s) cur: all of them different from where the value was read, and a write section
+						disjoint, write := true, true
+						for a := range cur {
+							if as[a] {
+								disjoint = false
+							}
+							if !isWriteAcq(a) {
+								write = false
+							}
+						}
+						if disjoint && write {
+							report(i, v, k, kind)
+						}
+						continue
+					}
+					// outside any section of k: a branch that guards a later write-mode acquisition of k
+					iff, isIf := i.(*ssa.If)
+					if !isIf || len(b.Succs) != 2 {
+						continue
+					}
+					_ = iff
+					for _, succ := range b.Succs {
+						if len(succ.Preds) != 1 {
+							continue
+						}
+						for _, b2 := range fn.Blocks {
+							if !succ.Dominates(b2) {
+								continue
+							}
+							for _, j := range b2.Instrs {
+								if _, isDefer := j.(*ssa.Defer); isDefer {
+									continue
+								}
+								if k2, op, ok := lockOp(j); ok && op == "Lock" && k2 == k && !as[j] && !rereads(j, k, field[v]) {
+									report(i, v, k, "decides whether the lock is taken for writing")
+								}
+							}
+						}
+					}
+				}
+			}
+		}
+	}
+	return out
 }
